@@ -34,7 +34,30 @@ def _limits():
 
 
 def sh(cmd, **kw):
-    return subprocess.run(cmd, stdout=subprocess.PIPE, stderr=subprocess.STDOUT, text=True, preexec_fn=_limits, **kw)
+    """run a command in its own process group; on a timeout the WHOLE group is killed (cargo-kani starts cbmc as a grandchild: killing only
+    the child used to leave an orphaned cbmc behind that kept a core and up to the memory limit for hours)"""
+    import signal
+    timeout = kw.pop('timeout', None)
+    p = subprocess.Popen(cmd, stdout=subprocess.PIPE, stderr=subprocess.STDOUT, text=True, preexec_fn=_limits, start_new_session=True, **kw)
+    try:
+        out, _ = p.communicate(timeout=timeout)
+    except subprocess.TimeoutExpired:
+        try:
+            os.killpg(p.pid, signal.SIGKILL)
+        except Exception:
+            pass
+        try:
+            p.communicate(timeout=10)
+        except Exception:
+            pass
+        raise
+    except BaseException:
+        try:
+            os.killpg(p.pid, signal.SIGKILL)
+        except Exception:
+            pass
+        raise
+    return subprocess.CompletedProcess(cmd, p.returncode, out, None)
 
 
 def src_digest(repo):
